@@ -1143,13 +1143,16 @@ package machine
 //@   ensures  limit_err: old(u16(m.queueLen) >= m.QueueLimit) && old(mem(m.stateNames, "Exception") && mem(m.activeStates, "Exception")) ==> r == Canceled && unchanged(m.queue, m.queueTick, m.activeStates) && mapeq(m.clock, old(m.clock))
 
 //@ func (m *Machine) Remove(states S, args A) (r Result)
-//@   props C03 C13
+//@   props C03 C13 C04
 //@   requires api:   ApiPre(m) && Known(m, states)
 //@   assigns *
 //@   ensures  disposing: old(m.disposing) ==> r == Canceled && unchanged(m.queue, m.queueTick, m.activeStates) && mapeq(m.clock, old(m.clock))
 //@   ensures  backoff:   m.Backoff() ==> r == Canceled && unchanged(m.queue, m.queueTick, m.activeStates) && mapeq(m.clock, old(m.clock))
 //@   ensures  limit:     old(u16(m.queueLen) >= m.QueueLimit) && !mem(states, "Exception") ==> r == Canceled && unchanged(m.queue, m.queueTick, m.activeStates) && mapeq(m.clock, old(m.clock))
 //@   ensures  limit_noerr: old(u16(m.queueLen) >= m.QueueLimit) && !old(mem(m.stateNames, "Exception") && mem(m.activeStates, "Exception")) ==> r == Canceled && unchanged(m.queue, m.queueTick, m.activeStates) && mapeq(m.clock, old(m.clock))
+//@   ensures  not_lost:  old(m.queueProcessing) && old(len(m.queue)) > 0 && nodup(states) && r == Executed ==> old(exists i int :: 0 <= i && i < len(m.queue) && SameRequest(m, m.queue[i], MutationRemove, states, false))
+//@   ensures  queued:    old(m.queueProcessing) && old(len(m.queue)) > 0 && r != Executed && r != Canceled ==> len(m.queue) == old(len(m.queue)) + 1 && m.queue[len(m.queue) - 1].QueueTick == r && m.queue[len(m.queue) - 1].Type == MutationRemove
+//@                         && (forall i int :: 0 <= i && i < old(len(m.queue)) ==> m.queue[i] == old(m.queue)[i])
 
 // A traced removal issued while mutations are already waiting is never answered
 // "Executed" without being queued: a mutation ahead of it may activate the state.
